@@ -57,6 +57,26 @@ def _fresh(v):
     return v
 
 
+def lookalikes(sig_real):
+    """Different call signatures that a sloppy key construction could confuse with (args, kwargs)."""
+    args, kwargs = sig_real
+    out = []
+    items = frozenset(kwargs.items())
+    if kwargs:
+        out.append((args + (items,), {}))                       # keywords folded into a trailing frozenset positional
+        out.append((args + tuple(kwargs.values()), {}))         # keyword values passed positionally
+        out.append((args + (tuple(kwargs.items()),), {}))
+        out.append((args, {k: v for k, v in list(kwargs.items())[:-1]}))
+    if args:
+        out.append(((args,), dict(kwargs)))                     # the whole positional tuple as ONE argument
+        out.append((args[:-1], dict(kwargs, **{'x': args[-1]}) if 'x' not in kwargs else dict(kwargs)))
+        out.append((args[::-1], dict(kwargs)))
+        out.append((tuple(str(a) for a in args), dict(kwargs)))
+    out.append((args + ((),), dict(kwargs)))
+    out.append((args, dict(kwargs, z=None)))
+    return [o for o in out if o != (args, kwargs)]
+
+
 def model_equal(a, b):
     """The statement's notion: positional equal in order, keywords equal as a set of pairs."""
     (pa, ka), (pb, kb) = a, b
@@ -73,6 +93,7 @@ class KeyWorld:
         self.sch = sch
         self.aa = aa
         self.invs = []
+        self.g_invs = []
         self.violations = []
         self.results = []
 
@@ -86,10 +107,26 @@ class KeyWorld:
         await asyncio.sleep(0.125)
         return ('v', i)
 
+    async def func_g(self, *args, **kwargs):
+        self.g_invs.append((args, dict(kwargs)))
+        await asyncio.sleep(0.125)
+        return ('g', len(self.g_invs) - 1)
+
     async def amain(self):
         cache = {} if self.prog['cache'] == 'dict' else None
-        f = self.aa.threadsafe_async_cache(self.func, cache=cache)
+        if self.prog.get('shared_decorator'):
+            # one options-form decorator object applied to two functions: each must get its own cache
+            deco = self.aa.threadsafe_async_cache()
+            f = deco(self.func)
+            g = deco(self.func_g)
+        else:
+            f = self.aa.threadsafe_async_cache(self.func, cache=cache)
+            g = None
         calls = [realise(tuple(map(tuple, (s[0], [tuple(x) for x in s[1]])))) for s in self.prog['sigs']]
+        if self.prog.get('lookalike') is not None and calls:
+            la = lookalikes(calls[0])
+            if la:
+                calls[1] = la[self.prog['lookalike'] % len(la)]
         for args, kwargs in calls:
             r = await f(*args, **kwargs)
             self.results.append(r)
@@ -109,6 +146,13 @@ class KeyWorld:
                           f'call {j} {c!r} got {self.results[j]!r}, expected invocation {exp_inv} (owner call {o} {calls[o]!r}); '
                           f'{len(self.invs)} invocation(s)')
                 break
+        if g is not None and not self.violations:
+            for j, (args, kwargs) in enumerate(calls[:2]):
+                r = await g(*args, **kwargs)
+                if not (isinstance(r, tuple) and r[0] == 'g'):
+                    self.viol('cachekey.shared_between_functions', 'two functions wrapped by one decorator object share cache entries',
+                              f'g{(args, kwargs)!r} returned {r!r}, a value computed by the other function')
+                    break
         if not self.violations and len(self.invs) != len(owners):
             self.viol('cachekey.invocation_count', 'number of invocations differs from the number of distinct keys',
                       f'{len(self.invs)} invocations for {len(owners)} distinct signatures: {calls!r}')
